@@ -1079,6 +1079,29 @@ fn c03_clone() {
     assert!(c.len == g.len + 2);
 }
 
+//@ h=c11_init_state props=C11,C03 cfgs=K1 tier=q t=300 | funcs: Default for inner::Generator (all five variants), Generator<T>::new | bound: base case of the length induction: a new generator has len == 0, tail_len == 0, every counter 0 (symbolic index) and processed_len() == Some(0); no input
+#[kani::proof]
+#[kani::unwind(260)]
+fn c11_init_state() {
+    macro_rules! one {
+        ($ty:ty) => {{
+            let g = <$ty>::default();
+            let k: usize = kani::any();
+            kani::assume(k < g.buckets.buckets.len());
+            assert!(g.len == 0 && g.tail_len == 0 && g.buckets.buckets[k] == 0);
+            assert!(g.processed_len() == Some(0));
+        }};
+    }
+    one!(GShort);
+    one!(GNormal);
+    one!(GNormalL);
+    one!(GLong);
+    one!(GLongL);
+    let w = Generator::<crate::hashes::Normal>::new();
+    assert!(w.inner.len == 0 && w.inner.tail_len == 0);
+    assert!(w.processed_len() == Some(0));
+}
+
 // ------------------------------------------------------------------ C18: generator never allocates
 unsafe fn no_alloc(_l: core::alloc::Layout) -> *mut u8 {
     assert!(false, "heap allocation reached");
